@@ -282,7 +282,7 @@ theorem tour_ne_fresh {nw : Network} {s : Schedule} (hinv : InvF nw s) {p : Veh}
 structure StepInv (nw : Network) (J : Schedule → Prop) : Prop where
   step : ∀ s op r, J s → ArgsOKF op → applyOp nw s op = .ok r → J r.sched
   fresh : ∀ s p pt, J s → s.tourOf? p = some pt → p ≠ Veh.dum s.counter
-  setT : ∀ s trans, J s → J (setNextDayTransitions s trans)
+  setT : ∀ s trans, (trans.map (·.1)).Nodup → J s → J (setNextDayTransitions s trans)
   empty : J (Schedule.empty nw)
 
 theorem invF_improve {nw : Network} {J : Schedule → Prop} (hJ : StepInv nw J) {s s' : Schedule} {vs : Option (List Veh)}
@@ -508,8 +508,8 @@ theorem fromToursFold_invF {nw : Network} {J : Schedule → Prop} (hJ : StepInv 
     exact fromToursFold_invF hJ rest s1 c (spawnFold_invF hJ p.1 p.2 s s1 hi h1) h
 
 /-- every stage of the modelled pipeline satisfies the invariant -/
-theorem solve_inv {nw : Network} {J : Schedule → Prop} (hJ : StepInv nw J) (o : Solve.Oracle) (tr : Solve.Trace)
-    (h : Solve.solve nw o = .ok tr) : J tr.start ∧ J tr.afterSearch ∧ J tr.final := by
+theorem solve_inv {nw : Network} {J : Schedule → Prop} (hJ : StepInv nw J) (o : Solve.Oracle)
+    (hopt : ∀ s, ((o.optimise s).map (·.1)).Nodup) (tr : Solve.Trace) (h : Solve.solve nw o = .ok tr) : J tr.start ∧ J tr.afterSearch ∧ J tr.final := by
   unfold Solve.solve at h
   obtain ⟨flow, hf, h⟩ := bind_ok h
   obtain ⟨start, hs, h⟩ := bind_ok h
@@ -526,7 +526,7 @@ theorem solve_inv {nw : Network} {J : Schedule → Prop} (hJ : StepInv nw J) (o 
     · exact i2
     · exact search_invF nw hJ o.limit o.threshold o.fuel start i2
   have i4 := hJ.setT _ (o.optimise (if nw.maintNodes.isEmpty then start
-      else (searchFuel Schedule.objective (Solve.nbrs nw o.limit o.threshold) o.fuel start).1)) i3
+      else (searchFuel Schedule.objective (Solve.nbrs nw o.limit o.threshold) o.fuel start).1)) (hopt _) i3
   exact ⟨i2, i3, invF_endConsistent hJ i4 hfin⟩
 
 /-! ### the instance: formation membership, valid tours, dummy ids -/
@@ -534,7 +534,7 @@ theorem solve_inv {nw : Network} {J : Schedule → Prop} (hJ : StepInv nw J) (o 
 theorem stepInv_invF {nw : Network} (hn : NetHyp nw) : StepInv nw (InvF nw) where
   step := fun s op r hinv hargs h => invF_step nw hn s op r hinv hargs h
   fresh := fun _ _ _ hinv hpt => tour_ne_fresh hinv hpt
-  setT := fun _ _ h => ⟨⟨⟨h.inv.tinv.listing, h.inv.tinv.dummies, h.inv.tinv.tours⟩, h.inv.dok, h.inv.forms⟩, h.fresh⟩
+  setT := fun _ _ _ h => ⟨⟨⟨h.inv.tinv.listing, h.inv.tinv.dummies, h.inv.tinv.tours⟩, h.inv.dok, h.inv.forms⟩, h.fresh⟩
   empty := ⟨empty_inv nw, by intro d hd; simp [Schedule.empty, assocGet?_nil] at hd⟩
 
 /-- **C03 / C10 at pipeline level**: for every network satisfying the decidable hypotheses, every
@@ -543,13 +543,13 @@ theorem stepInv_invF {nw : Network} (hn : NetHyp nw) : StepInv nw (InvF nw) wher
     schedule every vehicle is listed at most once per formation and exactly on the activities of its
     own tour, every real tour is a connectable depot-to-depot chain, every dummy tour a non-empty
     time-ordered list of activities -/
-theorem C03_pipeline_membership (nw : Network) (hn : NetHyp nw) (o : Solve.Oracle) (tr : Solve.Trace)
-    (h : Solve.solve nw o = .ok tr) :
+theorem C03_pipeline_membership (nw : Network) (hn : NetHyp nw) (o : Solve.Oracle)
+    (hopt : ∀ s, ((o.optimise s).map (·.1)).Nodup) (tr : Solve.Trace) (h : Solve.solve nw o = .ok tr) :
     InvF nw tr.start ∧ InvF nw tr.afterSearch ∧ InvF nw tr.final ∧
     ∀ n, (formOf tr.final.formations n).Nodup ∧
       ∀ v, v ∈ formOf tr.final.formations n ↔
         ∃ t, assocGet? tr.final.tours v = some t ∧ n ∈ t.nodes ∧ (nw.node n).isDepot = false := by
-  obtain ⟨i2, i3, i5⟩ := solve_inv (stepInv_invF hn) o tr h
+  obtain ⟨i2, i3, i5⟩ := solve_inv (stepInv_invF hn) o hopt tr h
   exact ⟨i2, i3, i5, fun n => C10_formation_membership hn i5.inv n⟩
 
 /-- every candidate of every neighbourhood satisfies the invariant (C11) -/
